@@ -174,3 +174,73 @@ def text_hop(fmt: int, cps: list[int]) -> str:
     if len(back) != 2:
         return "cue count"
     return "" if " ".join(back[0][2].split()) == " ".join(s.split()) and back[1][2] == "tail" else "text"
+
+
+def text_hop_vtt_amp(cps: list[int]) -> str:
+    """
+    pre: printable(cps, 3, 3)
+    post: _ == ""
+    """
+    # entity-looking text ('&lt;', '&am', '&#1;') through the WebVTT hop: the writer escapes the '&', the reader
+    # must decode exactly one level
+    s = text_of([38] + cps)
+    if "<" in s or "-->" in s:
+        return ""  # tag syntax of WebVTT cue text: C03 + C04
+    back = _dump(_hop(1, _cs([1000000, 2000000, 3000000, 4000000], [s, "tail"])))
+    if len(back) != 2:
+        return "cue count"
+    return "" if " ".join(back[0][2].split()) == " ".join(s.split()) and back[1][2] == "tail" else "text"
+
+
+import pycaption.sami as sm
+from pycaption.sami import SAMIWriter, SAMIReader
+from harness.C11_styles import SAMI_DOC, _bs_html
+
+ALPHA = ("&", ";", ">", "<", "a", "#", " ")
+
+
+def _pick7(i):
+    if i == 0:
+        return ALPHA[0]
+    if i == 1:
+        return ALPHA[1]
+    if i == 2:
+        return ALPHA[2]
+    if i == 3:
+        return ALPHA[3]
+    if i == 4:
+        return ALPHA[4]
+    if i == 5:
+        return ALPHA[5]
+    return ALPHA[6]
+
+
+def text_hop_sami2(c0: int, c1: int) -> str:
+    """
+    pre: 0 <= c0 < 7 and 0 <= c1 < 7
+    post: _ == ""
+    """
+    return _text_hop_sami("x" + _pick7(c0) + _pick7(c1))
+
+
+def text_hop_sami3(c0: int, c1: int, c2: int) -> str:
+    """
+    pre: 0 <= c0 < 7 and 0 <= c1 < 7 and 0 <= c2 < 7
+    post: _ == ""
+    """
+    return _text_hop_sami("x" + _pick7(c0) + _pick7(c1) + _pick7(c2))
+
+
+def _text_hop_sami(s):
+    # SAMI hop on the text: real SAMIWriter text path -> real SAMIParser (pure Python) -> real SAMIReader on the
+    # html.parser tree builder; the text is 'x' + three characters over the format's metacharacters
+    frag = SAMIWriter()._recreate_text([CaptionNode.create_text(s)])
+    saved = sm.BeautifulSoup
+    sm.BeautifulSoup = _bs_html
+    try:
+        caps = SAMIReader().read(SAMI_DOC % frag).get_captions("en-US")
+    finally:
+        sm.BeautifulSoup = saved
+    if len(caps) != 1:
+        return "cue count"
+    return "" if " ".join(caps[0].get_text().split()) == " ".join(s.split()) else "text"
